@@ -22,6 +22,7 @@ def op_configs(tier):
     add("fixed-size A, screen object used a second time after an in-place reveal", op="fixed", fam="A", R=5, pmax=3, reuse=True)
     add("segregating B, screen object used a second time after an in-place reveal", op="segr", fam="B", R=4, pmax=3, reuse=True)
     add("segregating B", op="segr", fam="B", R=4 if q else 5, pmax=3)
+    add("segregating M (twelve samples: more than ten generated plates)", op="segr", fam="M", R=14, pmax=2)
     add("pairwise D", op="pair", fam="D", R=4 if q else 6)
     add("pairwise H (single-agent rows for the last sample only)", op="pair", fam="H", R=6 if q else 7)
     add("merge-min C", op="mergemin", fam="C", R=6 if q else 7, pmax=6)
